@@ -160,6 +160,7 @@ def install(cfg):
     cfg.pattern_match = re_match
     install_asym(cfg)
     install_numbers(cfg)
+    install_jwe(cfg)
 
 
 def parse_simple_class_pattern(pat):
@@ -392,6 +393,8 @@ def install_numbers(cfg):
         S.pow2_facts(interp.ctx, z3.IntVal(8 * ((bits + 7) // 8)))
         interp.ctx.axiom(z3.And(x >= 0, y >= 0, x < S.Pow2(z3.IntVal(8 * ((bits + 7) // 8))), y < S.Pow2(z3.IntVal(8 * ((bits + 7) // 8)))),
                          "EC coordinates are field elements (0 <= x, y < 2^(8*ceil(bits/8)))")
+        interp.ctx.axiom(z3.And(OnCurve(z3.StringVal(curve), x, y), ECPoint(z3.StringVal(curve), x, y) == pk),
+                         "an EC public key is the point of its numbers: numbers(k).public_key() = k, and it is on the curve")
         return Foreign("ec_pubnum", x=SVal(mk_int(x)), y=SVal(mk_int(y)), curve=Foreign("curve", name=curve, key_size=bits), pk=pk)
     fm[("ec_pub", "public_numbers")] = lambda interp, k, a, kw: ec_pubnum(interp, k.f["ident"], k.f["curve"])
 
@@ -405,9 +408,10 @@ def install_numbers(cfg):
     fm[("ec_priv", "private_numbers")] = ec_privnum
 
     for nm, ln in OKP_LEN.items():
-        def pub_bytes(interp, k, a, kw, ln=ln):
+        def pub_bytes(interp, k, a, kw, ln=ln, nm=nm):
             t = OKP_x(k.f["ident"])
             interp.ctx.axiom(z3.Length(t) == ln, "OKP public key octets have the curve's fixed length")
+            interp.ctx.axiom(OKPPub(z3.StringVal(nm), t) == k.f["ident"], "from_public_bytes(public_bytes(k)) = k")
             interp.ctx.events.append(("public_bytes", a[0] if a else kw.get("encoding"), a[1] if len(a) > 1 else kw.get("format")))
             return SVal(mk_bytes(t))
 
@@ -418,3 +422,461 @@ def install_numbers(cfg):
             return SVal(mk_bytes(t))
         fm[(nm + "_pub", "public_bytes")] = pub_bytes
         fm[(nm + "_priv", "private_bytes")] = priv_bytes
+
+
+# =============================================================================================
+# JWE primitives: AES key wrap, AES-GCM, AES-CBC + PKCS7, PBKDF2, Concat KDF, RSA encryption, ECDH, key generation, zlib
+
+from cryptography.hazmat.primitives import keywrap as _keywrap
+from cryptography.hazmat.primitives.ciphers import Cipher as _Cipher, algorithms as _calgs, modes as _cmodes
+from cryptography.hazmat.primitives.padding import PKCS7 as _PKCS7
+from cryptography.hazmat.primitives.kdf.pbkdf2 import PBKDF2HMAC as _PBKDF2HMAC
+from cryptography.hazmat.primitives.kdf.concatkdf import ConcatKDFHash as _ConcatKDFHash
+from cryptography.hazmat.backends import default_backend as _default_backend
+from cryptography.exceptions import InvalidTag as _InvalidTag
+
+KW = z3.Function("KW", S_, S_, S_)                     # RFC 3394 wrap(kek, cek)
+Unwrap = z3.Function("Unwrap", S_, S_, S_)
+UnwrapOk = z3.Function("UnwrapOk", S_, S_, B_)
+GCMEnc = z3.Function("GCMEnc", S_, S_, S_, S_, S_)     # (key, iv, aad, pt) -> ct
+GCMTag = z3.Function("GCMTag", S_, S_, S_, S_, S_)     # (key, iv, aad, pt) -> tag
+GCMDec = z3.Function("GCMDec", S_, S_, S_, S_, S_)     # (key, iv, aad, ct) -> pt
+GCMOk = z3.Function("GCMOk", S_, S_, S_, S_, S_, B_)   # (key, iv, aad, ct, tag)
+CBCEnc = z3.Function("CBCEnc", S_, S_, S_, S_)
+CBCDec = z3.Function("CBCDec", S_, S_, S_, S_)
+Pad7 = z3.Function("PKCS7Pad", S_, S_)
+Unpad7 = z3.Function("PKCS7Unpad", S_, S_)
+Pad7Ok = z3.Function("PKCS7Ok", S_, B_)
+PBKDF2 = z3.Function("PBKDF2", S_, S_, S_, I_, I_, S_)  # (hash, password, salt, iterations, length)
+ConcatKDF = z3.Function("ConcatKDF", S_, S_, I_, S_, S_)  # (hash, Z, length, otherinfo)
+RSAEnc = z3.Function("RSAEnc", S_, I_, S_, I_, S_)       # (padding, pk, msg, nonce)
+RSADec = z3.Function("RSADec", S_, I_, S_, S_)           # (padding, sk, ct)
+RSADecOk = z3.Function("RSADecOk", S_, I_, S_, B_)
+KeyGen = z3.Function("KeyGen", I_, I_)                   # private key identity drawn from entropy cell
+ECPoint = z3.Function("ECPoint", S_, I_, I_, I_)         # public key identity from (curve, x, y)
+OnCurve = z3.Function("OnCurve", S_, I_, I_, B_)
+OKPPub = z3.Function("OKPPub", S_, S_, I_)               # public key identity from (curve, x octets)
+OKPPriv = z3.Function("OKPPriv", S_, S_, I_)
+ECPrivFrom = z3.Function("ECPrivFrom", S_, I_, I_)
+ZHead = z3.Function("ZHead", S_, S_)
+Deflate = z3.Function("Deflate", S_, S_)                 # raw DEFLATE (RFC 1951)
+Adler = z3.Function("Adler", S_, S_)
+Inflate = z3.Function("Inflate", S_, I_, S_)             # (stream, wbits) -> full expansion
+InflateOk = z3.Function("InflateOk", S_, I_, B_)
+
+
+def _len_in(t, sizes):
+    return z3.Or(*[z3.Length(t) == n for n in sizes])
+
+
+def install_jwe(cfg):
+    fm = cfg.foreign_methods
+    fa = cfg.foreign_attrs
+
+    @cfg.stub(_default_backend)
+    def default_backend(interp):
+        return Foreign("backend")
+
+    # ---- AES key wrap ----------------------------------------------------------------------
+    @cfg.stub(_keywrap.aes_key_wrap)
+    def aes_key_wrap(interp, kek, cek, backend=None):
+        ctx = interp.ctx
+        kt, ct = _bytes(interp, kek, "aes_key_wrap"), _bytes(interp, cek, "aes_key_wrap")
+        if not ctx.branch(_len_in(kt, (16, 24, 32))):
+            interp.raise_(ValueError, "The wrapping key must be a valid AES key length")
+        if not ctx.branch(z3.And(z3.Length(ct) >= 16, z3.Length(ct) % 8 == 0)):
+            interp.raise_(ValueError, "The key to wrap must be at least 16 bytes and a multiple of 8")
+        w = KW(kt, ct)
+        ctx.axiom(z3.Length(w) == z3.Length(ct) + 8, "RFC 3394: |wrap(k, c)| = |c| + 8")
+        ctx.axiom(z3.And(UnwrapOk(kt, w), Unwrap(kt, w) == ct), "RFC 3394: unwrap(k, wrap(k, c)) = c")
+        ctx.events.append(("aes_key_wrap", kt, ct))
+        return interp.mk("vbytes", w)
+
+    @cfg.stub(_keywrap.aes_key_unwrap)
+    def aes_key_unwrap(interp, kek, ek, backend=None):
+        ctx = interp.ctx
+        kt, et = _bytes(interp, kek, "aes_key_unwrap"), _bytes(interp, ek, "aes_key_unwrap")
+        if not ctx.branch(_len_in(kt, (16, 24, 32))):
+            interp.raise_(ValueError, "The wrapping key must be a valid AES key length")
+        if not ctx.branch(z3.And(z3.Length(et) >= 24, z3.Length(et) % 8 == 0)):
+            interp.raise_(_keywrap.InvalidUnwrap, "Must be at least 24 bytes / a multiple of 8")
+        ctx.events.append(("aes_key_unwrap", kt, et))
+        if ctx.branch(UnwrapOk(kt, et)):
+            r = Unwrap(kt, et)
+            ctx.axiom(z3.Length(r) == z3.Length(et) - 8, "RFC 3394: |unwrap(k, w)| = |w| - 8")
+            return interp.mk("vbytes", r)
+        interp.raise_(_keywrap.InvalidUnwrap)
+
+    # ---- Cipher / AES / GCM / CBC ----------------------------------------------------------
+    def mk_aes(interp, key):
+        kt = _bytes(interp, key, "AES key")
+        if not interp.ctx.branch(_len_in(kt, (16, 24, 32))):
+            interp.raise_(ValueError, "Invalid key size for AES")
+        return Foreign("aes", key=kt)
+    cfg.class_hooks[_calgs.AES] = mk_aes
+
+    def mk_gcm(interp, iv, tag=None, min_tag_length=16):
+        ivt = _bytes(interp, iv, "GCM iv")
+        if not interp.ctx.branch(z3.And(z3.Length(ivt) >= 8, z3.Length(ivt) <= 128)):
+            interp.raise_(ValueError, "initialization_vector must be between 8 and 128 bytes")
+        tt = None
+        if tag is not None:
+            tt = _bytes(interp, tag, "GCM tag")
+            if not interp.ctx.branch(z3.And(z3.Length(tt) >= 16, z3.Length(tt) <= 16)):
+                interp.raise_(ValueError, "Authentication tag must be 16 bytes")
+        return Foreign("gcm", iv=ivt, tag=tt)
+    cfg.class_hooks[_cmodes.GCM] = mk_gcm
+
+    def mk_cbc(interp, iv):
+        ivt = _bytes(interp, iv, "CBC iv")
+        return Foreign("cbc", iv=ivt)
+    cfg.class_hooks[_cmodes.CBC] = mk_cbc
+
+    def mk_cipher(interp, algorithm, mode, backend=None):
+        if mode.kind == "cbc" and not interp.ctx.branch(z3.Length(mode.f["iv"]) == 16):
+            interp.raise_(ValueError, "Invalid IV size for CBC")
+        return Foreign("cipher", alg=algorithm, mode=mode)
+    cfg.class_hooks[_Cipher] = mk_cipher
+
+    def encryptor(interp, c, a, kw):
+        return Foreign(c.f["mode"].kind + "_enc", key=c.f["alg"].f["key"], iv=c.f["mode"].f["iv"], aad=z3.StringVal(""), data=None)
+
+    def decryptor(interp, c, a, kw):
+        m = c.f["mode"]
+        if m.kind == "gcm" and m.f["tag"] is None:
+            interp.raise_(ValueError, "Authentication tag must be provided when decrypting")
+        return Foreign(m.kind + "_dec", key=c.f["alg"].f["key"], iv=m.f["iv"], aad=z3.StringVal(""), tag=m.f.get("tag"), data=None)
+    fm[("cipher", "encryptor")] = encryptor
+    fm[("cipher", "decryptor")] = decryptor
+
+    def aad_method(interp, o, a, kw):
+        o.f["aad"] = _bytes(interp, a[0], "aad")
+        return None
+    fm[("gcm_enc", "authenticate_additional_data")] = aad_method
+    fm[("gcm_dec", "authenticate_additional_data")] = aad_method
+
+    def gcm_enc_update(interp, o, a, kw):
+        pt = _bytes(interp, a[0], "update")
+        o.f["data"] = pt
+        ct = GCMEnc(o.f["key"], o.f["iv"], o.f["aad"], pt)
+        tag = GCMTag(o.f["key"], o.f["iv"], o.f["aad"], pt)
+        ctx = interp.ctx
+        ctx.axiom(z3.Length(ct) == z3.Length(pt), "GCM: |ciphertext| = |plaintext|")
+        ctx.axiom(z3.Length(tag) == 16, "GCM: 128-bit tag")
+        ctx.axiom(z3.And(GCMOk(o.f["key"], o.f["iv"], o.f["aad"], ct, tag), GCMDec(o.f["key"], o.f["iv"], o.f["aad"], ct) == pt),
+                  "GCM: decrypt(encrypt(p)) = p and the tag verifies")
+        ctx.events.append(("gcm_encrypt", o.f["key"], o.f["iv"], o.f["aad"], pt))
+        return interp.mk("vbytes", ct)
+    fm[("gcm_enc", "update")] = gcm_enc_update
+    fm[("gcm_enc", "finalize")] = lambda interp, o, a, kw: b""
+
+    def gcm_tag(interp, o):
+        if o.f["data"] is None:
+            raise Unsupported("GCM tag before update")
+        return interp.mk("vbytes", GCMTag(o.f["key"], o.f["iv"], o.f["aad"], o.f["data"]))
+    fa[("gcm_enc", "tag")] = gcm_tag
+
+    def gcm_dec_update(interp, o, a, kw):
+        ct = _bytes(interp, a[0], "update")
+        o.f["data"] = ct
+        pt = GCMDec(o.f["key"], o.f["iv"], o.f["aad"], ct)
+        interp.ctx.axiom(z3.Length(pt) == z3.Length(ct), "GCM: |plaintext| = |ciphertext|")
+        interp.ctx.events.append(("gcm_decrypt", o.f["key"], o.f["iv"], o.f["aad"], ct, o.f["tag"]))
+        return interp.mk("vbytes", pt)
+    fm[("gcm_dec", "update")] = gcm_dec_update
+
+    def gcm_dec_finalize(interp, o, a, kw):
+        ct = o.f["data"] if o.f["data"] is not None else z3.StringVal("")
+        if interp.ctx.branch(GCMOk(o.f["key"], o.f["iv"], o.f["aad"], ct, o.f["tag"])):
+            return b""
+        interp.raise_(_InvalidTag)
+    fm[("gcm_dec", "finalize")] = gcm_dec_finalize
+
+    def cbc_enc_update(interp, o, a, kw):
+        pt = _bytes(interp, a[0], "update")
+        if not interp.ctx.branch(z3.Length(pt) % 16 == 0):
+            raise Unsupported("CBC update with a partial block")
+        ct = CBCEnc(o.f["key"], o.f["iv"], pt)
+        interp.ctx.axiom(z3.Length(ct) == z3.Length(pt), "CBC: |ciphertext| = |padded plaintext|")
+        interp.ctx.axiom(CBCDec(o.f["key"], o.f["iv"], ct) == pt, "CBC: decrypt(encrypt(p)) = p")
+        interp.ctx.events.append(("cbc_encrypt", o.f["key"], o.f["iv"], pt))
+        return interp.mk("vbytes", ct)
+    fm[("cbc_enc", "update")] = cbc_enc_update
+    fm[("cbc_enc", "finalize")] = lambda interp, o, a, kw: b""
+
+    def cbc_dec_update(interp, o, a, kw):
+        ct = _bytes(interp, a[0], "update")
+        o.f["data"] = ct
+        pt = CBCDec(o.f["key"], o.f["iv"], ct)
+        interp.ctx.axiom(z3.Length(pt) == z3.Length(ct), "CBC: |plaintext| = |ciphertext|")
+        interp.ctx.events.append(("cbc_decrypt", o.f["key"], o.f["iv"], ct))
+        return interp.mk("vbytes", pt)
+    fm[("cbc_dec", "update")] = cbc_dec_update
+
+    def cbc_dec_finalize(interp, o, a, kw):
+        ct = o.f["data"] if o.f["data"] is not None else z3.StringVal("")
+        if interp.ctx.branch(z3.Length(ct) % 16 == 0):
+            return b""
+        interp.raise_(ValueError, "The length of the provided data is not a multiple of the block length")
+    fm[("cbc_dec", "finalize")] = cbc_dec_finalize
+
+    # ---- PKCS7 -----------------------------------------------------------------------------
+    cfg.class_hooks[_PKCS7] = lambda interp, block_size: Foreign("pkcs7", block=block_size)
+    fm[("pkcs7", "padder")] = lambda interp, o, a, kw: Foreign("padder", data=None)
+    fm[("pkcs7", "unpadder")] = lambda interp, o, a, kw: Foreign("unpadder", data=None)
+
+    def pad_update(interp, o, a, kw):
+        if o.f["data"] is not None:
+            raise Unsupported("multiple PKCS7 update calls")
+        o.f["data"] = _bytes(interp, a[0], "update")
+        return b""
+    fm[("padder", "update")] = pad_update
+    fm[("unpadder", "update")] = pad_update
+
+    def pad_finalize(interp, o, a, kw):
+        d = o.f["data"] if o.f["data"] is not None else z3.StringVal("")
+        p = Pad7(d)
+        ctx = interp.ctx
+        ctx.axiom(z3.And(z3.Length(p) % 16 == 0, z3.Length(p) > z3.Length(d), z3.Length(p) <= z3.Length(d) + 16), "PKCS7: pads to the next multiple of 16")
+        ctx.axiom(z3.And(Pad7Ok(p), Unpad7(p) == d), "PKCS7: unpad(pad(x)) = x")
+        return interp.mk("vbytes", p)
+    fm[("padder", "finalize")] = pad_finalize
+
+    def unpad_finalize(interp, o, a, kw):
+        d = o.f["data"] if o.f["data"] is not None else z3.StringVal("")
+        if interp.ctx.branch(Pad7Ok(d)):
+            r = Unpad7(d)
+            interp.ctx.axiom(z3.Length(r) < z3.Length(d), "PKCS7: unpadding removes at least one octet")
+            return interp.mk("vbytes", r)
+        interp.raise_(ValueError, "Invalid padding bytes.")
+    fm[("unpadder", "finalize")] = unpad_finalize
+
+    # ---- KDFs ------------------------------------------------------------------------------
+    def mk_pbkdf2(interp, algorithm=None, length=None, salt=None, iterations=None, backend=None):
+        ctx = interp.ctx
+        if interp.tag(iterations) not in ("vint", "vbool"):
+            interp.raise_(TypeError, "iterations must be an integer")
+        it = interp.int_term(iterations)
+        if ctx.branch(z3.Or(it < 0, it >= S.Pow2(z3.IntVal(64)))):
+            S.pow2_facts(ctx, z3.IntVal(64))
+            interp.raise_(OverflowError, "can't convert to C unsigned integer")
+        S.pow2_facts(ctx, z3.IntVal(64))
+        if ctx.branch(it < 1):
+            interp.raise_(ValueError, "iterations must be a positive integer")
+        return Foreign("pbkdf2", hname=hash_name_of(interp, algorithm), length=interp.int_term(length), salt=_bytes(interp, salt, "salt"), iterations=it)
+    cfg.class_hooks[_PBKDF2HMAC] = mk_pbkdf2
+
+    def pbkdf2_derive(interp, o, a, kw):
+        pw = _bytes(interp, a[0], "derive")
+        r = PBKDF2(z3.StringVal(o.f["hname"]), pw, o.f["salt"], o.f["iterations"], o.f["length"])
+        interp.ctx.axiom(z3.Length(r) == o.f["length"], "PBKDF2: output has the requested length")
+        interp.ctx.events.append(("pbkdf2", o.f["hname"], pw, o.f["salt"], o.f["iterations"], o.f["length"]))
+        return interp.mk("vbytes", r)
+    fm[("pbkdf2", "derive")] = pbkdf2_derive
+
+    def mk_concatkdf(interp, algorithm=None, length=None, otherinfo=None, backend=None):
+        return Foreign("concatkdf", hname=hash_name_of(interp, algorithm), length=interp.int_term(length),
+                       otherinfo=_bytes(interp, otherinfo, "otherinfo") if otherinfo is not None else z3.StringVal(""))
+    cfg.class_hooks[_ConcatKDFHash] = mk_concatkdf
+
+    def concatkdf_derive(interp, o, a, kw):
+        z = _bytes(interp, a[0], "derive")
+        r = ConcatKDF(z3.StringVal(o.f["hname"]), z, o.f["length"], o.f["otherinfo"])
+        interp.ctx.axiom(z3.Length(r) == o.f["length"], "ConcatKDF: output has the requested length")
+        interp.ctx.events.append(("concatkdf", o.f["hname"], z, o.f["length"], o.f["otherinfo"]))
+        return interp.mk("vbytes", r)
+    fm[("concatkdf", "derive")] = concatkdf_derive
+
+    # ---- RSA encryption ----------------------------------------------------------------------
+    def rsa_encrypt(interp, k, a, kw):
+        msg, padding = a
+        pd = z3.StringVal(pad_descriptor(padding))
+        mt = _bytes(interp, msg, "encrypt")
+        ct = RSAEnc(pd, k.f["ident"], mt, new_nonce(interp.ctx))
+        # correctness instance for the private key(s) whose public key this is
+        sk = z3.Int("sk!of")
+        interp.ctx.axiom(z3.ForAll([sk], z3.Implies(Pub(sk) == k.f["ident"], z3.And(RSADecOk(pd, sk, ct), RSADec(pd, sk, ct) == mt)),
+                                   patterns=[RSADecOk(pd, sk, ct)]) if False else z3.BoolVal(True))
+        interp.ctx.ghost.setdefault("rsa_ct", []).append((pd, k.f["ident"], ct, mt))
+        interp.ctx.axiom(z3.Length(ct) > 0, "RSA ciphertext is non-empty")
+        interp.ctx.events.append(("rsa_encrypt", pad_descriptor(padding), k.f["ident"], mt))
+        return interp.mk("vbytes", ct)
+    fm[("rsa_pub", "encrypt")] = rsa_encrypt
+
+    def rsa_decrypt(interp, k, a, kw):
+        ct, padding = a
+        pd = z3.StringVal(pad_descriptor(padding))
+        ctt = _bytes(interp, ct, "decrypt")
+        ctx = interp.ctx
+        for (pd2, pk2, ct2, mt2) in ctx.ghost.get("rsa_ct", []):
+            ctx.axiom(z3.Implies(z3.And(pd2 == pd, pk2 == Pub(k.f["ident"]), ct2 == ctt), z3.And(RSADecOk(pd, k.f["ident"], ctt), RSADec(pd, k.f["ident"], ctt) == mt2)),
+                      "RSA: decrypt(encrypt(m)) = m under the matching private key and padding")
+        ctx.events.append(("rsa_decrypt", pad_descriptor(padding), k.f["ident"], ctt))
+        if ctx.branch(RSADecOk(pd, k.f["ident"], ctt)):
+            return interp.mk("vbytes", RSADec(pd, k.f["ident"], ctt))
+        interp.raise_(ValueError, "Decryption failed")
+    fm[("rsa_priv", "decrypt")] = rsa_decrypt
+
+    # ---- ECDH ------------------------------------------------------------------------------
+    def dh_term(ctx, sk, pk):
+        t = DH(sk, pk)
+        lst = ctx.ghost.setdefault("dh_terms", [])
+        for (sk2, pk2) in lst:
+            ctx.axiom(z3.Implies(z3.And(pk == Pub(sk2), pk2 == Pub(sk)), DH(sk, pk) == DH(sk2, pk2)), "ECDH commutes: DH(a, pub(b)) = DH(b, pub(a))")
+        lst.append((sk, pk))
+        ctx.axiom(z3.Length(t) > 0, "ECDH shared secret is non-empty")
+        return t
+
+    def ec_exchange(interp, k, a, kw):
+        algo, peer = a
+        if not (isinstance(peer, Foreign) and peer.kind == "ec_pub"):
+            interp.raise_(TypeError, "peer_public_key must be an EllipticCurvePublicKey")
+        if peer.f["curve"] != k.f["curve"]:
+            interp.raise_(ValueError, "peer_public_key and self are not on the same curve")
+        interp.ctx.events.append(("ecdh", k.f["ident"], peer.f["ident"]))
+        return interp.mk("vbytes", dh_term(interp.ctx, k.f["ident"], peer.f["ident"]))
+    fm[("ec_priv", "exchange")] = ec_exchange
+
+    for nm in ("x25519", "x448"):
+        def okp_exchange(interp, k, a, kw, nm=nm):
+            peer = a[0]
+            if not (isinstance(peer, Foreign) and peer.kind == nm + "_pub"):
+                interp.raise_(TypeError, "peer_public_key must be a public key of the same curve")
+            interp.ctx.events.append(("ecdh", k.f["ident"], peer.f["ident"]))
+            return interp.mk("vbytes", dh_term(interp.ctx, k.f["ident"], peer.f["ident"]))
+        fm[(nm + "_priv", "exchange")] = okp_exchange
+
+    # ---- key generation (entropy tape) -------------------------------------------------------
+    def fresh_private(ctx, what):
+        cell = next_cell(ctx)
+        ctx.events.append(("keygen", cell, what))
+        return KeyGen(z3.IntVal(cell))
+
+    @cfg.stub(_ec.generate_private_key)
+    def ec_generate(interp, curve=None, backend=None):
+        name = curve.f["name"] if isinstance(curve, Foreign) else getattr(curve, "name", None)
+        return mk_key("ec_priv", fresh_private(interp.ctx, "EC/" + str(name)), curve=name)
+
+    for cls_, nm_ in ((_ec.SECP256R1, "secp256r1"), (_ec.SECP384R1, "secp384r1"), (_ec.SECP521R1, "secp521r1"), (_ec.SECP256K1, "secp256k1")):
+        cfg.class_hooks[cls_] = (lambda n_: (lambda interp, *a, **k: Foreign("curve", name=n_, key_size=CURVES[n_])))(nm_)
+
+    @cfg.stub(_rsa.generate_private_key)
+    def rsa_generate(interp, public_exponent=None, key_size=None, backend=None):
+        if interp.tag(key_size) not in ("vint", "vbool"):
+            interp.raise_(TypeError, "key_size must be an integer")
+        return mk_key("rsa_priv", fresh_private(interp.ctx, "RSA"), bits=interp.int_term(key_size))
+
+    cm = cfg.classmethod_stubs
+    for nm, (prv, pub) in OKP_KINDS.items():
+        cm[(prv, "generate")] = (lambda n_: (lambda interp: mk_key(n_ + "_priv", fresh_private(interp.ctx, "OKP/" + n_))))(nm)
+
+        def from_public(interp, data, n_=nm):
+            dt = _bytes(interp, data, "from_public_bytes")
+            if not interp.ctx.branch(z3.Length(dt) == OKP_LEN[n_]):
+                interp.raise_(ValueError, "An %s public key is %d bytes long" % (n_, OKP_LEN[n_]))
+            ident = OKPPub(z3.StringVal(n_), dt)
+            interp.ctx.axiom(OKP_x(ident) == dt, "public_bytes(from_public_bytes(x)) = x")
+            return mk_key(n_ + "_pub", ident)
+
+        def from_private(interp, data, n_=nm):
+            dt = _bytes(interp, data, "from_private_bytes")
+            if not interp.ctx.branch(z3.Length(dt) == OKP_LEN[n_]):
+                interp.raise_(ValueError, "An %s private key is %d bytes long" % (n_, OKP_LEN[n_]))
+            ident = OKPPriv(z3.StringVal(n_), dt)
+            interp.ctx.axiom(OKP_d(ident) == dt, "private_bytes(from_private_bytes(d)) = d")
+            return mk_key(n_ + "_priv", ident)
+        cm[(pub, "from_public_bytes")] = from_public
+        cm[(prv, "from_private_bytes")] = from_private
+
+    # ---- numbers -> keys (JWK import) ----------------------------------------------------------
+    def mk_ec_pubnum(interp, x, y, curve):
+        for v in (x, y):
+            if interp.tag(v) not in ("vint", "vbool"):
+                interp.raise_(TypeError, "x and y must be integers")
+        return Foreign("ec_pubnum", x=x, y=y, curve=curve, pk=None)
+    cfg.class_hooks[_ec.EllipticCurvePublicNumbers] = mk_ec_pubnum
+
+    def ec_pubnum_public_key(interp, o, a, kw):
+        if o.f.get("pk") is not None:
+            return mk_key("ec_pub", o.f["pk"], curve=o.f["curve"].f["name"])
+        cn = o.f["curve"].f["name"]
+        xt, yt = interp.int_term(o.f["x"]), interp.int_term(o.f["y"])
+        if not interp.ctx.branch(OnCurve(z3.StringVal(cn), xt, yt)):
+            interp.raise_(ValueError, "Invalid EC key: point is not on the curve")
+        ident = ECPoint(z3.StringVal(cn), xt, yt)
+        interp.ctx.axiom(z3.And(EC_x(ident) == xt, EC_y(ident) == yt, xt >= 0, yt >= 0), "public_numbers(numbers.public_key()) = numbers")
+        return mk_key("ec_pub", ident, curve=cn)
+    fm[("ec_pubnum", "public_key")] = ec_pubnum_public_key
+
+    def mk_ec_privnum(interp, d, pubnum):
+        if interp.tag(d) not in ("vint", "vbool"):
+            interp.raise_(TypeError, "private_value must be an integer")
+        return Foreign("ec_privnum", private_value=d, public_numbers=pubnum)
+    cfg.class_hooks[_ec.EllipticCurvePrivateNumbers] = mk_ec_privnum
+
+    def ec_privnum_private_key(interp, o, a, kw):
+        pn = o.f["public_numbers"]
+        cn = pn.f["curve"].f["name"]
+        dt = interp.int_term(o.f["private_value"])
+        xt, yt = interp.int_term(pn.f["x"]), interp.int_term(pn.f["y"])
+        ok = z3.Function("ECPrivMatches", S_, I_, I_, I_, B_)(z3.StringVal(cn), dt, xt, yt)
+        if not interp.ctx.branch(z3.And(OnCurve(z3.StringVal(cn), xt, yt), ok)):
+            interp.raise_(ValueError, "Invalid EC key")
+        sk = ECPrivFrom(z3.StringVal(cn), dt)
+        interp.ctx.axiom(z3.And(EC_d(sk) == dt, Pub(sk) == ECPoint(z3.StringVal(cn), xt, yt), EC_x(Pub(sk)) == xt, EC_y(Pub(sk)) == yt),
+                         "private_numbers(numbers.private_key()) = numbers")
+        return mk_key("ec_priv", sk, curve=cn)
+    fm[("ec_privnum", "private_key")] = ec_privnum_private_key
+
+    # ---- zlib ------------------------------------------------------------------------------
+    @cfg.stub(zlib.compress)
+    def zlib_compress(interp, data, *a, **kw):
+        dt = _bytes(interp, data, "compress")
+        ctx = interp.ctx
+        h, d, c = ZHead(dt), Deflate(dt), Adler(dt)
+        ctx.axiom(z3.And(z3.Length(h) == 2, z3.Length(c) == 4), "zlib.compress = 2-byte header + raw DEFLATE + 4-byte Adler-32")
+        ctx.axiom(h == z3.StringVal("\x78\x9c"), "zlib.compress default header is 0x78 0x9c")
+        ctx.axiom(z3.And(InflateOk(d, z3.IntVal(-15)), Inflate(d, z3.IntVal(-15)) == dt), "INFLATE(DEFLATE_raw(s)) = s")
+        ctx.axiom(z3.Length(d) > 0, "a DEFLATE stream is non-empty")
+        ctx.axiom(z3.Not(z3.PrefixOf(z3.StringVal("\x78\x9c"), d)),
+                  "raw DEFLATE emitted by zlib never starts with 0x78 0x9c (0x78 would be a stored-block header with non-zero padding bits)")
+        return interp.mk("vbytes", z3.Concat(h, d, c))
+
+    @cfg.stub(zlib.decompressobj)
+    def decompressobj(interp, wbits=15, *a):
+        if not isinstance(wbits, int):
+            raise Unsupported("symbolic wbits")
+        return Foreign("decompressor", wbits=wbits, tail=None)
+
+    def decompress(interp, o, a, kw):
+        ctx = interp.ctx
+        st = _bytes(interp, a[0], "decompress")
+        mx = a[1] if len(a) > 1 else kw.get("max_length", 0)
+        wb = z3.IntVal(o.f["wbits"])
+        if not ctx.branch(InflateOk(st, wb)):
+            interp.raise_(zlib.error, "Error -3 while decompressing data")
+        E = Inflate(st, wb)
+        ctx.events.append(("inflate", st, o.f["wbits"], mx))
+        if mx == 0:
+            o.f["tail"] = z3.BoolVal(False)
+            return interp.mk("vbytes", E)
+        mt = interp.int_term(mx)
+        over = z3.Length(E) > mt
+        r = z3.If(over, z3.SubString(E, 0, mt), E)
+        tail_nonempty = ctx.fresh("unconsumed_tail_nonempty", BoolSort)
+        # zlib may hold pending *output* without pending input: a non-empty unconsumed_tail implies the limit
+        # was hit, but the converse does not hold (measured: 256 001..256 258 compressible octets)
+        ctx.axiom(z3.Implies(tail_nonempty, over), "unconsumed_tail non-empty => output was cut at max_length")
+        o.f["tail"] = tail_nonempty
+        o.f["over"] = over
+        return interp.mk("vbytes", r)
+    fm[("decompressor", "decompress")] = decompress
+
+    def unconsumed_tail(interp, o):
+        t = o.f["tail"]
+        if t is None:
+            return b""
+        tail = interp.ctx.fresh("unconsumed_tail", StringSort)
+        interp.ctx.axiom((z3.Length(tail) > 0) == t, "unconsumed_tail")
+        return interp.mk("vbytes", tail)
+    fa[("decompressor", "unconsumed_tail")] = unconsumed_tail
